@@ -121,7 +121,7 @@ def run(ctx):
     probe_known(ctx)
     rhs_correspondence(ctx, drv)
     reqs, metas = [], []
-    per = ctx.scale(6, 40)
+    per = ctx.scale(12, 60)
     for name, e in odes.E.items():
         for k in range(per):
             style = e["ic"][k % len(e["ic"])]
